@@ -76,4 +76,28 @@ def run(rep, kf, tier, seed):
     from props.common import run_bounded
     run_bounded(rep, kf, "C03", ["param_conflicts", "body_media"], tier)
     run_endpoints(rep, kf, tier, seed, "C03")
+    # the httpx boundary (assumed in the contracts above), probed natively for each body kind: bounded, labelled
+    import time as _time
+    from pyvc import boundedchecks as _bc
+    from pyvc.core import Obligation as _Ob, PROVED as _P, REFUTED as _R
+    for kind in ("binary", "json", "form", "multipart"):
+        t0 = _time.time()
+        why = _bc.httpx_accepts_violation(kind)
+        e = kf.get("C03-K1-binary-body-asyncio") if kf is not None else None
+        ob = _Ob(id=f"C03.bounded.httpx-accepts[{kind}]", props=["C03"], unit="generated sync_detailed / asyncio_detailed + httpx",
+                 bounded=True, backend="cpython + httpx.MockTransport", time_s=_time.time() - t0,
+                 formula=f"the real httpx sends the same request for a {kind} body in the blocking and the asyncio variant   [bounded]")
+        if why is None:
+            ob.status, ob.detail = _P, "same request in both variants"
+        elif kind == "binary" and e is not None and "asyncio variant -> 'raised RuntimeError" in why:
+            ob.status, ob.detail, ob.findings = _R, why, [e["id"]]
+            if (e["id"], e["what"]) not in rep.known_lines:
+                rep.known_lines.append((e["id"], e["what"]))
+        else:
+            ob.status, ob.detail = _R, why
+            ob.witness = {"kind": "call", "qualname": "pyvc.boundedchecks:httpx_accepts_violation", "args": [], "kwargs": {"kind": kind},
+                          "violates": "result is not None"}
+        rep.add(ob)
+        rep.bounded.append({"id": ob.id, "bound": "one probe operation per body kind", "violations": 0 if ob.status == _P or ob.findings else 1,
+                            "known": ob.findings})
     return {"level": "proof"}
